@@ -283,7 +283,16 @@ class CallMixin(object):
             raise Dead()
         mstate, mval = rets[0]
         for s2, v2 in rets[1:]:
-            mstate, mval = self.merge_states(mstate, s2, mval, v2)
+            try:
+                mstate, mval = self.merge_states(mstate, s2, mval, v2)
+            except AnalysisError as je:
+                # the outermost function of a path-splitting analysis returns nothing the analysis
+                # reads (its effects were recorded on the way): its exit states need not be joined
+                if je.rule == "E5.join" and getattr(self, "split_unjoinable", False) and len(self.call_stack) == 0 and all(
+                    isinstance(v_, Const) and v_.v is None for _, v_ in rets
+                ):
+                    continue
+                raise
         if mstate is not st:
             st.heap, st.pc, st.dom, st.facts, st.constraints = (
                 mstate.heap,
@@ -2201,8 +2210,9 @@ class StmtMixin(object):
                 # separates them
                 diff = [s_ for s_ in set(A.dom) | set(B.dom) if set(A.dom.get(s_, self.space.dom[s_])) != set(B.dom.get(s_, self.space.dom[s_]))]
                 sep = [s_ for s_ in diff if not (set(A.dom.get(s_, self.space.dom[s_])) & set(B.dom.get(s_, self.space.dom[s_])))]
-                if len(diff) == 1 and len(sep) == 1:
-                    s_ = sep[0]
+                if sep:
+                    # one slot whose domains are disjoint tells the two paths apart, whatever else differs
+                    s_ = sorted(sep)[0]
                     da = set(A.dom.get(s_, self.space.dom[s_]))
                     db = set(B.dom.get(s_, self.space.dom[s_]))
                     c = Fin((s_,), dict(((v_,), v_ in da) for v_ in self.space.dom[s_] if v_ in da or v_ in db))
